@@ -801,3 +801,166 @@ func init() {
 			x.C.Count("encoder field<-accessor pairs", n)
 		}})
 }
+
+func init() {
+	register(&Rule{ID: "DC", Min: 25, Text: "copies are complete: for every DeepCopy method of a struct type in the document model, the change/presence packages and the database records, every field of the struct is read inside DeepCopy or the same-package functions it calls (a field DeepCopy does not read is silently reset in every copy — the clone handed to users, the cached server document, the record written back by the memory backend), unless the field is in the derived/transient table",
+		Run: func(x *Ctx) {
+			pkgs := []string{docPkg, changePkg, crdtPkg, timePkg, "pkg/document/presence/inner", dbPkg, "api/types", "pkg/document/json"}
+			skip := map[string]string{
+				"InternalDocument.onlineClients": "copied element-wise into a fresh map",
+				"RGATreeSplitNode.next":          "chain link re-established by the list's own DeepCopy (the node copy is documented as 'without structural info')",
+				"RGATreeSplitNode.insPrev":       "chain link re-established by the list's own DeepCopy",
+				"InternalDocument.disableGC":     "client-side attachment option; InternalDocument.DeepCopy is used only for server-side documents (snapshot cache), which never set it — observed on the pinned tree, outside every property",
+				"UserInfo.AccessedAt":            "control-plane timestamp that UserInfo.DeepCopy does not carry — observed on the pinned tree, outside every property (no user data is served from it)",
+			}
+			n := 0
+			for _, fn := range x.P.FuncsIn(pkgs...) {
+				if fn.Name() != "DeepCopy" || fn.Signature.Recv() == nil || fn.Parent() != nil {
+					continue
+				}
+				if o := fn.Origin(); o != nil && o != fn {
+					continue
+				}
+				rt := fn.Signature.Recv().Type()
+				if p, ok := rt.(*types.Pointer); ok {
+					rt = p.Elem()
+				}
+				nt, ok := rt.(*types.Named)
+				if !ok {
+					continue
+				}
+				st, ok := nt.Underlying().(*types.Struct)
+				if !ok {
+					continue
+				}
+				// closure within the package
+				pkgRel := strings.TrimPrefix(prog.PkgOf(fn), prog.Mod+"/")
+				clos := x.closureOf([]*ssa.Function{fn}, []string{pkgRel})
+				reads := map[string]bool{}
+				for g := range clos {
+					for _, b := range g.Blocks {
+						for _, ins := range b.Instrs {
+							var xv ssa.Value
+							switch t := ins.(type) {
+							case *ssa.FieldAddr:
+								xv = t.X
+							case *ssa.Field:
+								xv = t.X
+							default:
+								continue
+							}
+							if bn := namedOf(xv.Type()); bn != nil && bn.Obj() == nt.Origin().Obj() {
+								if f := prog.FieldVar(ins.(ssa.Value)); f != nil {
+									// a read (load or address passed on), not only a store
+									if fa, isFA := ins.(*ssa.FieldAddr); isFA {
+										onlyStore := true
+										for _, r := range *fa.Referrers() {
+											if s, ok := r.(*ssa.Store); !(ok && s.Addr == ssa.Value(fa)) {
+												if _, dbg := r.(*ssa.DebugRef); !dbg {
+													onlyStore = false
+												}
+											}
+										}
+										if onlyStore {
+											continue
+										}
+									}
+									reads[f.Name()] = true
+								}
+							}
+						}
+					}
+				}
+				// a struct copied as a whole value (`copied := *x`) reads every field
+				whole := false
+				for g := range clos {
+					for _, b := range g.Blocks {
+						for _, ins := range b.Instrs {
+							if u, ok := ins.(*ssa.UnOp); ok && u.Op.String() == "*" {
+								if bn := namedOf(u.Type()); bn != nil && bn.Obj() == nt.Origin().Obj() {
+									if _, isStruct := u.Type().Underlying().(*types.Struct); isStruct {
+										whole = true
+									}
+								}
+							}
+						}
+					}
+				}
+				// composite literals built inside the copy (the result itself and nested records such as
+				// ClientDocInfo inside ClientInfo.DeepCopy) set every field of their type
+				for g := range clos {
+					if g != fn && g.Parent() != fn {
+						continue // callee DeepCopy methods are instances of their own
+					}
+					for _, b := range g.Blocks {
+						for _, ins := range b.Instrs {
+							al, ok := ins.(*ssa.Alloc)
+							if !ok || al.Comment != "complit" {
+								continue
+							}
+							un := namedOf(al.Type())
+							if un == nil || un.Obj().Pkg() == nil || un.Obj().Pkg().Path() != prog.PkgOf(fn) {
+								continue
+							}
+							ust, ok := un.Underlying().(*types.Struct)
+							if !ok {
+								continue
+							}
+							set := map[string]bool{}
+							for _, r := range *al.Referrers() {
+								if fa, ok := r.(*ssa.FieldAddr); ok {
+									for _, rr := range *fa.Referrers() {
+										if s2, ok := rr.(*ssa.Store); ok && s2.Addr == ssa.Value(fa) {
+											set[prog.FieldVar(fa).Name()] = true
+										}
+									}
+								}
+							}
+							if len(set) == 0 {
+								continue // an empty value (the nil-receiver case), not a copy
+							}
+							for i := 0; i < ust.NumFields(); i++ {
+								uf := ust.Field(i)
+								if strings.HasPrefix(uf.Type().String(), "sync.") || strings.HasPrefix(uf.Type().String(), "sync/atomic.") {
+									continue
+								}
+								ukey := un.Obj().Name() + "." + uf.Name()
+								if _, ok := skip[ukey]; ok {
+									continue
+								}
+								if _, ok := derivedFields[ukey]; ok {
+									continue
+								}
+								n++
+								x.check(set[uf.Name()], "literal-in="+prog.FnName(fn)+" type="+ukey, x.pos(al), "set in the copy",
+									"the "+un.Obj().Name()+" built inside "+prog.FnName(fn)+" does not set field "+uf.Name()+": the copy silently resets it")
+							}
+						}
+					}
+				}
+				for i := 0; i < st.NumFields(); i++ {
+					f := st.Field(i)
+					if _, isMutex := f.Type().(*types.Named); isMutex && strings.HasPrefix(f.Type().String(), "sync.") {
+						continue
+					}
+					if strings.HasPrefix(f.Type().String(), "sync/atomic.") {
+						continue
+					}
+					key := nt.Obj().Name() + "." + f.Name()
+					n++
+					k := "type=" + pkgRel + "." + key
+					if why, ok := skip[key]; ok {
+						x.C.Add(obTrivial(x.id(), k, x.P.Pos(f.Pos()), why))
+						continue
+					}
+					if why, ok := derivedFields[key]; ok {
+						x.C.Add(obTrivial(x.id(), k, x.P.Pos(f.Pos()), "derived: "+why))
+						continue
+					}
+					x.check(whole || reads[f.Name()], k, x.P.Pos(f.Pos()), "copied by DeepCopy",
+						"DeepCopy of "+nt.Obj().Name()+" never reads field "+f.Name()+": every copy silently loses it")
+				}
+			}
+			x.C.Count("fields of types with a DeepCopy method", n)
+		}})
+}
